@@ -55,7 +55,8 @@ def add_md(rng, r, p=0.6):
 def md_tree(rng, depth):
     out = {}
     for _ in range(rng.randint(1, 4)):
-        k = rng.choice(["k", "note", "ünï", "α β", "n", "arr", "f", "sub", "type", "q" * 40, "x.y", "nodes", "edges", "shape", "0"])
+        k = rng.choice(["k", "note", "ünï", "α β", "n", "arr", "f", "sub", "type", "q" * 40, "x.y", "nodes", "edges", "shape", "0",
+                        "input_type", "output_type", "weight", "input_shape", "w_in", "start_dim"])
         r = rng.random()
         if r < 0.2:
             out[k] = rng.choice(["", "text", "日本語", "a\nb", "same", "NIRGraph"])
